@@ -126,9 +126,20 @@ def special(X, mnemonic, opmode, prefix=(), modifs=None, args=()):
     env = _env(X)
     env.update({'self': me, 'u08': afs.u08, 'u16': afs.u16, 'u32': afs.u32})
     xm = Obj('x86mndb')
+    srcs = renamed_copy_sources(X)
+    by_name = {}
+    for path, c in X.cells.items():
+        by_name.setdefault(c.name, c)
     for k, nm in renamed_copies(X).items():
         o = Obj(k)
-        o.name, o.modifs = nm, md
+        # a renamed copy carries the modifiers of the row it is a copy of (movsw_m is a copy of movsd: w8 is not set on it)
+        mdk = dict((kk, None) for kk in md)
+        src_cell = by_name.get(srcs.get(k))
+        if src_cell is not None:
+            mdk.update(src_cell.modifs)
+        else:
+            mdk = md
+        o.name, o.modifs = nm, mdk
         setattr(xm, k, o)
     env['x86mndb'] = xm
     ev = Evaluator(env)
